@@ -61,7 +61,7 @@ def install():
         if _STATE["calls"] is not None:
             fr = sys._getframe(1)  # noqa: SLF001
             rec = {"fn": getattr(fun, "__qualname__", repr(fun)), "mode": mode, "file": _rel(fr.f_code.co_filename),
-                   "line": fr.f_lineno, "handle": handle_state(self), "out": "ok"}
+                   "line": fr.f_lineno, "handle": handle_state(self), "out": "ok", "ws": id(self)}
             _STATE["calls"].append(rec)
         try:
             return orig(self, fun, *args, mode=mode, **kwargs)
@@ -82,7 +82,8 @@ def install():
             rec = None
             if top and _STATE["entries"] is not None:
                 h = next((x for x in a[:2] if hasattr(x, "mode") and hasattr(x, "filename")), None)
-                rec = {"fn": f"{cls.__name__}.{name}", "hmode": getattr(h, "mode", None) if h else None, "out": "ok"}
+                rec = {"fn": f"{cls.__name__}.{name}", "hmode": getattr(h, "mode", None) if h else None, "out": "ok",
+                       "hfile": str(getattr(h, "filename", "")) if h else ""}
                 _STATE["entries"].append(rec)
             _STATE["depth"] += 1
             try:
